@@ -185,6 +185,11 @@ def run(ck, replay=None):
                         ((15, 14), (5, 5), [0.3 / 7, 1.0]), ((12, 9), (4, 3), [0.1, 0.7]), ((20, 30), (5, 6), [1e-4 / 3, 1e4 / 3])]:
             cases.append((list(n), list(k), 0, 1, h, "far", False))
             cases.append((list(n), list(k), 1, 2, h, "default", True))
+        # voxel sizes of unusual magnitude (nanometres; tens of thousands of kilometres with an inexact quotient), divisible extents
+        for n, k in [((9, 18), (3, 6)), ((12, 9), (4, 3)), ((8, 10), (2, 5))]:
+            for h in ([1e-9 / n[0], 2e-9 / n[1]], [8e7 / n[0], 1.6e8 / n[1]], [3e-10, 7e-10], [5e6 / 3, 7e6 / 3]):
+                cases.append((list(n), list(k), 0, 1, list(h), "default", False))
+                cases.append((list(n), list(k), 1, 4, list(h), "user", False))
         # boundary: the documented example sizes and non-divisible small cases
         for n, k in [((5, 7), (2, 3)), ((12, 12), (6, 6)), ((7, 7), (6, 6)), ((1, 1), (1, 1)), ((9, 10), (4, 3))]:
             cases.append((list(n), list(k), 0, 1, [1.0, 1.0], "default", False))
